@@ -330,4 +330,27 @@ PROPS['C13'] = {
     'level_note': 'Trusted: Coq kernel, hand-written models (correspondence), classtab extractor.',
 }
 
+PROPS['C20'] = {
+    'requires': ['cutout', 'pixel_dropout'],
+    'corr': corr_fn('C20', ['cutout', 'pixel_dropout'], 60, 1200), 'search': 'C20',
+    'trusted_base': GEOM_TRUSTED + [
+        'the hole samplers are translated per loop iteration (translator/py2coq.py: split_loop_sampler checks the '
+        '`for _ in range(count): ...; holes.append(h)` idiom syntactically); the random draws are oracle parameters whose '
+        'ranges are those of random.randint / random.uniform (lib/PyRt.v draw_int, draw_uniform)',
+        'int- and float-sized CoarseDropout configurations are two specialisations chosen by the declared types of the '
+        'instance attributes (the isinstance tests of the source are evaluated on those types)',
+        'the boolean drop mask of PixelDropout is modelled by its indicator function (model/Arrays.v v_where); the NumPy '
+        'generator that draws it is outside the model (explored: dropped fraction)'],
+    'assumptions': ['holes handed to cutout lie inside the frame (proved for both samplers)'],
+    'level_text': 'Theorems on code regenerated from the source: cutout sets exactly the voxels of the holes to the fill value '
+                  'and leaves every other voxel; image and mask paths use the same holes, and the mask is returned untouched '
+                  'without a mask fill value; CoarseDropout holes (int and fractional sizes) lie inside the frame with counts '
+                  'and extents within the configured limits for every value of the draws; GridDropout holes lie inside the '
+                  'frame for every accepted configuration and stay below the largest allowed unit; a keypoint is removed iff '
+                  'it is inside a hole, half-open on all axes, survivors keep order and values; PixelDropout is np.where on '
+                  'its drop mask for image and mask. Explored on the implementation: dtypes, channels, shapes, keypoints on '
+                  'hole faces, dropped fraction.',
+    'level_note': 'Trusted: Coq kernel, translator (loop-sampler split, static isinstance), view model of NumPy.',
+}
+
 NOT_CLAIMED = {}
